@@ -18,6 +18,7 @@ import (
 
 	"github.com/brutella/hc"
 	"github.com/brutella/hc/accessory"
+	"github.com/brutella/hc/characteristic"
 	hccrypto "github.com/brutella/hc/crypto"
 	"github.com/brutella/hc/hap"
 	hclog "github.com/brutella/hc/log"
@@ -173,6 +174,10 @@ const otherConn = -5
 // unencrypted, no counter out of order.
 const closer = -6
 
+// notifyLong as a thread's only "length": like notify, for a string characteristic set to 3000 bytes — an EVENT of
+// four frames, longer than the 2048-byte pieces hc cuts response bodies into.
+const notifyLong = -7
+
 func has(writers [][]int, kind int) bool {
 	for _, w := range writers {
 		if len(w) == 1 && w[0] == kind {
@@ -192,7 +197,7 @@ func requestPlain() []byte {
 
 func hasNotify(writers [][]int) bool {
 	for _, w := range writers {
-		if len(w) == 1 && w[0] == notify {
+		if len(w) == 1 && (w[0] == notify || w[0] == notifyLong) {
 			return true
 		}
 	}
@@ -267,6 +272,11 @@ func setupOn(ctx hap.Context, conn net.Conn, secret [32]byte) *hap.Connection {
 // real secure session and subscribes the session to the switch.
 func setupTransport(c *fw.Ctx, conn net.Conn) (*hap.Connection, *accessory.Switch, error) {
 	sw := accessory.NewSwitch(accessory.Info{Name: "C08Switch"})
+	longChar = characteristic.NewString("F0D1")
+	longChar.Perms = characteristic.PermsAll()
+	longChar.SetValue("")
+	sw.Switch.AddCharacteristic(longChar.Characteristic)
+	longAcc = sw.Accessory
 	dir := filepath.Join(c.Scratch, "c08-transport")
 	t, err := hc.NewIPTransport(hc.Config{StoragePath: dir}, sw.Accessory)
 	if err != nil {
@@ -283,11 +293,27 @@ func setupTransport(c *fw.Ctx, conn net.Conn) (*hap.Connection, *accessory.Switc
 	sess.SetCryptographer(cs)
 	sess.Decrypter()
 	sess.Subscribe(sw.Switch.On.Characteristic)
+	sess.Subscribe(longChar.Characteristic)
 	return hc2, sw, nil
 }
 
 // notifyPayload is the plaintext of the EVENT for the switch's current value (built with hc's own helper: the
 // oracle is about framing, ordering and integrity on the wire, not about the EVENT's wording).
+var longChar *characteristic.String
+var longAcc *accessory.Accessory
+
+func longValue() string { return strings.Repeat("long-event-", 273)[:3000] }
+
+func notifyLongPayload() []byte {
+	resp, err := hap.NewCharacteristicNotification(longAcc, longChar.Characteristic)
+	if err != nil {
+		return nil
+	}
+	var b bytes.Buffer
+	resp.Write(&b)
+	return hap.FixProtocolSpecifier(b.Bytes())
+}
+
 func notifyPayload(sw *accessory.Switch, v bool) []byte {
 	resp, err := hap.NewCharacteristicNotification(sw.Accessory, sw.Switch.On.Characteristic)
 	if err != nil {
@@ -512,6 +538,10 @@ func execute(c *fw.Ctx, writers [][]int, prefix []int, bound int, prior int) []s
 			bodies = append(bodies, func() { sw.Switch.On.SetValue(true) })
 			continue
 		}
+		if len(lens) == 1 && lens[0] == notifyLong {
+			bodies = append(bodies, func() { longChar.SetValue(longValue()) })
+			continue
+		}
 		if len(lens) == 1 && lens[0] == read {
 			bodies = append(bodies, func() {
 				buf := make([]byte, 4096)
@@ -551,7 +581,12 @@ func execute(c *fw.Ctx, writers [][]int, prefix []int, bound int, prior int) []s
 	}
 	out := S.Run(prefix, bodies)
 	if sw != nil {
-		want = append(want, notifyPayload(sw, true)) // the value is true now
+		if has(writers, notify) {
+			want = append(want, notifyPayload(sw, true)) // the value is true now
+		}
+		if has(writers, notifyLong) {
+			want = append(want, notifyLongPayload())
+		}
 	}
 	vsync.HookLock, vsync.HookUnlock, vsync.HookRLock, vsync.HookRUnlock = nil, nil, nil, nil
 	vsync.HookCondWait, vsync.HookActive = nil, nil
@@ -605,6 +640,8 @@ func scenarios(thorough bool) []scenario {
 		{[][]int{{10}, {20}, {1500}}, -1, 0},
 		{[][]int{{1500}, {notify}}, -1, 0},
 		{[][]int{{300}, {notify}, {40}}, 2, 0},
+		{[][]int{{1500}, {notifyLong}}, -1, 0},
+		{[][]int{{300}, {notifyLong}, {notify}}, 2, 0},
 		{[][]int{{1500}, {read}}, -1, 0},
 		{[][]int{{300}, {read}, {40}}, 2, 0},
 		{[][]int{{1500}, {otherConn}}, -1, 0},
@@ -933,7 +970,7 @@ func init() {
 	fw.Register(&fw.Check{
 		ID:    "C08",
 		Level: "model_checking",
-		Rule:  "stateless exploration of goroutine interleavings under a cooperative scheduler with iterative preemption bounding: 2–5 writer goroutines × 1–3 Connection.Write calls with one- and two-frame payloads, keep-alive rounds sent by hap.KeepAlive itself, and EVENTs written by the notifyListener of a real (not started) IP transport after an application value change, over a socket that stalls in the middle of every write (a write deadline armed meanwhile expires for the write in flight), the connection's own reader opening an incoming two-frame request whose ciphertext arrives in five pieces (each arrival a scheduling point) while writes are in flight, and a writer on another connection of the same accessory, on a real hap.Connection with a real secure session; scheduling points = every Lock of a sync.Mutex/RWMutex and every Wait of a sync.Cond in packages hap and crypto (import rewritten to a shim through go build -overlay) and every socket Write; per schedule the captured wire must decrypt front to back with counters in arrival order (reference AEAD) and be a sequence of whole payloads (the same for the other connection's wire), and the reader must get the request intact. 2-writer scenarios unbounded, larger ones preemption bound 2 (thorough: unbounded / 3). Plus the same questions at STATEMENT granularity (subprocess built with a scheduling point before every statement of hc's packages, preemption bound 1 / 2): two writers on one connection, a writer and the reader, writers on two connections, a write that notifies another connection. Also: the 2-writer scenario on a connection that has carried 255 / 65535 (thorough also 256, 65534, 65536) writes before; scenarios in which a third thread closes the connection while writers are active (what reaches the peer before the socket closes must still decrypt in order and be whole payloads plus at most the beginning of one — nothing unencrypted); and every sequence of ≤3 (thorough ≤4) SetDeadline / SetReadDeadline / SetWriteDeadline calls through the hap.Connection (net/http's read-deadline calls at the end of every request must not reach the write deadline of a concurrent event write). Plus a free-running pass of the same bodies in a -race build, with one run against a peer that stalls for 3.5 s (real time) in the middle of a write while two more writers arrive. distinct_nontrivial = distinct (scenario, wire record order) outcomes — more than one per scenario means writers really collided",
+		Rule:  "stateless exploration of goroutine interleavings under a cooperative scheduler with iterative preemption bounding: 2–5 writer goroutines × 1–3 Connection.Write calls with one- and two-frame payloads, keep-alive rounds sent by hap.KeepAlive itself, and EVENTs written by the notifyListener of a real (not started) IP transport after an application value change (a boolean, and a 3000-byte string: an EVENT of four frames), over a socket that stalls in the middle of every write (a write deadline armed meanwhile expires for the write in flight), the connection's own reader opening an incoming two-frame request whose ciphertext arrives in five pieces (each arrival a scheduling point) while writes are in flight, and a writer on another connection of the same accessory, on a real hap.Connection with a real secure session; scheduling points = every Lock of a sync.Mutex/RWMutex and every Wait of a sync.Cond in packages hap and crypto (import rewritten to a shim through go build -overlay) and every socket Write; per schedule the captured wire must decrypt front to back with counters in arrival order (reference AEAD) and be a sequence of whole payloads (the same for the other connection's wire), and the reader must get the request intact. 2-writer scenarios unbounded, larger ones preemption bound 2 (thorough: unbounded / 3). Plus the same questions at STATEMENT granularity (subprocess built with a scheduling point before every statement of hc's packages, preemption bound 1 / 2): two writers on one connection, a writer and the reader, writers on two connections, a write that notifies another connection. Also: the 2-writer scenario on a connection that has carried 255 / 65535 (thorough also 256, 65534, 65536) writes before; scenarios in which a third thread closes the connection while writers are active (what reaches the peer before the socket closes must still decrypt in order and be whole payloads plus at most the beginning of one — nothing unencrypted); and every sequence of ≤3 (thorough ≤4) SetDeadline / SetReadDeadline / SetWriteDeadline calls through the hap.Connection (net/http's read-deadline calls at the end of every request must not reach the write deadline of a concurrent event write). Plus a free-running pass of the same bodies in a -race build, with one run against a peer that stalls for 3.5 s (real time) in the middle of a write while two more writers arrive. distinct_nontrivial = distinct (scenario, wire record order) outcomes — more than one per scenario means writers really collided",
 		Shards: func(t string) int {
 			if t == "thorough" {
 				return 16
